@@ -38,7 +38,7 @@ theorem dec_false {p : Prop} [Decidable p] (h : ¬ p) : decide p = false := by s
 /-- unfold both machines and compute; side conditions of the checked loads/stores by `omega` -/
 macro "tr_simp1" "[" ts:Lean.Parser.Tactic.simpLemma,* "]" : tactic => `(tactic|
   simp (disch := ((try simp only [rd_length, wr_length, fresh_length, List.length_cons, List.length_nil, List.length_map, bytesOf]); omega))
-    [tr_gen, capOf, Nat.max_self, Nat.max_eq_left, Nat.max_eq_right, objOf, heapOf, blocksOf, attOf, out, outB, bind, pure, branch, val, C.led, ngt, nlt, nge, nle, neq, nadd, nsub, pdiff, padd, psub,
+    [tr_gen, capOf, Nat.max_self, Nat.max_eq_left, Nat.max_eq_right, objOf, heapOf, blocksOf, attOf, out, outB, bind, pure, branch, val, C.led, ngt, nlt, nge, nle, neq, nadd, nsub, nmul, ndiv, nshr, nshl, Nat.pow_one, pdiff, padd, psub,
      ple, plt, pge, pgt, peq, prel, tern, band, bor, bnot, truthy, nullPtr, cellPtr,
      newArr, memcopy, memmove, load, store, store0, deleteArr, getBlk, setBlk, disjoint, allocId, checkLive, deleteId, newBlock,
      Store.load, Store.write, Store.release, liftO, newCap, ptrSub, Buf.termIfOwning, Buf.home, Buf.owning, Buf.default, cfault, fault,
@@ -72,7 +72,7 @@ macro "tr_simp" "[" ts:Lean.Parser.Tactic.simpLemma,* "]" : tactic => `(tactic| 
   all_goals try (split_cond <;> (first | (exfalso; omega) | (tr_simp1 [$ts,*]; all_goals try (tr_fix; tr_simp1 [$ts,*]))))
   all_goals try (split_cond <;> (first | (exfalso; omega) | (tr_simp1 [$ts,*]; all_goals try (tr_fix; tr_simp1 [$ts,*]))))
   all_goals try (split_cond <;> (first | (exfalso; omega) | (tr_simp1 [$ts,*]; all_goals try (tr_fix; tr_simp1 [$ts,*]))))
-  all_goals try (first | (simp; done) | (refine ⟨_, _, ⟨rfl, rfl⟩, ?_⟩; first | (simp; done) | (simp; all_goals (congr <;> omega)) | (and_intros <;> first | rfl | (congr <;> omega))))))
+  all_goals try (first | (simp; done) | (refine ⟨_, _, ⟨rfl, rfl⟩, ?_⟩; first | (simp; done) | (simp; all_goals (congr <;> omega)) | (and_intros <;> first | rfl | (congr <;> omega)) | (simp; all_goals (apply List.ext_getElem?; intro i; grind))))))
 
 set_option hygiene false in
 /-- the facts about an owning object `own id m` with ledger `L` that the computation needs -/
